@@ -11,7 +11,7 @@ Deciding monitors
      (3) the URLs fetched follow "Index then the patch chain i..n-1" when local = v_i, never the
      full file; the full file is fetched when local is absent / foreign / the index is unusable.
 Fault enumeration: every fault kind x every position: corrupt / truncate / remove each patch of
-the chain, Index missing / unparsable / semantically incomplete, full file missing, open of
+the chain, Index missing / unparsable / semantically incomplete / damaged (CRLF, cut, stray lines), full file missing, open of
 '.new' fails, the k-th write fails for EVERY k, close fails, rename vetoed, and a source-free
 LINE failpoint raising OSError at EVERY executed line of update_file / download_file /
 download_gunzip_lines / replace_file in turn.
@@ -19,6 +19,7 @@ download_gunzip_lines / replace_file in turn.
 import gzip
 import hashlib
 import os
+import re
 import shutil
 
 from ..models import edscript
@@ -28,12 +29,13 @@ LEVEL = 'fault_enumeration'
 RULE = ('Published histories v0..vn (n <= 5; Packages-shaped paragraphs incl. non-ASCII; reverted content, identical consecutive '
         'versions and the empty file included) served from a file:// mirror in a private temp dir, with a SHA1 or SHA256 '
         'index x local state {each v_i, current, foreign, absent} x fault {none, each patch corrupted / truncated / missing, '
-        'Index missing / unparsable / incomplete, full file missing, open/.new fails, k-th write fails for every k, close '
+        'Index missing / unparsable / incomplete / the real Index damaged (CRLF, truncated, stray or appended blank-like lines), full file missing, open/.new fails, k-th write fails for every k, close '
         'fails, rename vetoed, OSError at every executed line of the four functions}.  Every (scenario, fault, position) is '
         'one evaluation.  Non-trivial: >= 2 patches to apply, or a fault that actually fired on the taken path.')
 ASSUMPTIONS = ['every published version is a list of newline-terminated lines none of which is a lone "." (an ed script cannot carry either); lines may contain FF, VT, FS/GS/RS, NEL, U+2028/9 (not CR: text-mode file I/O translates it)',
-               '"Index unusable" = missing or syntactically unparsable; for an Index that parses but is semantically incomplete only the '
-               'safety half (nothing corrupted, no .new left) is demanded',
+               '"Index unusable" = missing or syntactically unparsable (some line is neither "Name: ...", nor a continuation line, nor a blank '
+               'separator - the documented line grammar, kept as a 20-line reference in the harness); for an Index that is grammatical but '
+               'semantically incomplete or damaged only the safety half (nothing corrupted, no .new left) is demanded',
                'faults are injected at the I/O boundary from the harness (module-level open shadowing the builtin for *.new, audit-hook '
                'veto of os.rename/os.replace) and by sys.monitoring LINE failpoints; single faults only']
 ANCHORS = ['debian.debian_support:update_file', 'debian.debian_support:replace_file', 'debian.debian_support:download_file',
@@ -43,12 +45,13 @@ MUST_REACH = ANCHORS
 FLOORS = {'quick': {'nontrivial': 1500, 'monitors': {'M.outcome': 6000, 'T.trace': 6000},
                     'counters': {'fault-fired:write-fail': 400, 'fault-fired:rename-veto': 40, 'fault-fired:close-fail': 40,
                                  'fault-fired:open-fail': 40, 'fault-fired:failpoint': 2000, 'fault-fired:corrupt-patch': 20,
-                                 'fault-fired:trunc-patch': 20, 'fault-fired:inconsistent-patch': 20, 'converged-by-chain>=2': 25, 'alg:sha256': 1000, 'alg:sha1': 1000}},
+                                 'fault-fired:trunc-patch': 20, 'fault-fired:inconsistent-patch': 20, 'converged-by-chain>=2': 25, 'alg:sha256': 1000, 'alg:sha1': 1000,
+                                 'damaged-index:malformed': 100, 'damaged-index:grammatical': 40}},
           'thorough': {'nontrivial': 60000, 'monitors': {'M.outcome': 250000, 'T.trace': 250000},
                        'counters': {'fault-fired:write-fail': 20000, 'fault-fired:rename-veto': 1500, 'fault-fired:close-fail': 1500,
                                     'fault-fired:open-fail': 1500, 'fault-fired:failpoint': 80000, 'fault-fired:corrupt-patch': 800,
                                     'fault-fired:trunc-patch': 800, 'fault-fired:inconsistent-patch': 800, 'converged-by-chain>=2': 1500, 'alg:sha256': 40000,
-                                    'alg:sha1': 40000}}}
+                                    'alg:sha1': 40000, 'damaged-index:malformed': 15000, 'damaged-index:grammatical': 6000}}}
 LEVEL_TEXT = ('Runtime monitoring with fault enumeration: for every generated (history, local state) the call is repeated once per '
               'fault position - every write index, every executed source line of the four functions, every patch of the chain - '
               'against a file:// mirror; an outcome oracle and a trace specification over audit events decide each execution.  '
@@ -127,6 +130,9 @@ def cases(ctx):
                       {'kind': 'rename-veto'},
                       # every executed line for the first histories of a shard, every 5th line (rotating phase) for the rest
                       {'kind': 'failpoint', 'n': 'all', 'stride': 1 if hno < 2 else 5, 'phase': r.randrange(5)}]
+            for _ in range(2):
+                # the real Index damaged the way transports and editors damage text: the index-shaped counterpart of 'bad-index'
+                faults.append({'kind': 'damaged-index', 'op': r.choice(DAMAGE_OPS), 'a': r.random(), 'b': r.randrange(1000)})
             for j in range(n):
                 faults.append({'kind': 'inconsistent-patch', 'j': j})
                 faults.append({'kind': 'corrupt-patch', 'j': j})
@@ -135,6 +141,61 @@ def cases(ctx):
                     faults.append({'kind': 'missing-patch', 'j': j})
             for fault in faults:
                 yield {'kind': 'update', 'versions': vs, 'alg': alg, 'start': start, 'fault': fault, 'ilayout': ilayout}
+
+
+# ---------------------------------------------------------------------------
+# damaged indexes and the line grammar that says which of them are malformed
+
+DAMAGE_OPS = ['crlf', 'crlf+empty-line', 'truncate', 'truncate-in-blanks', 'stray-line', 'append', 'prepend']
+STRAY_LINES = ['\x0c\n', '\r\n', ' \x0b\n', '\x1c\n', 'garbage here\n', '<html><body>404 Not Found</body></html>\n', '\xa0\n',
+               '\u2028\n', '-\n', ':\n', ' \x0c \n', '\x85\n', '\t\r\n']
+APPENDS = [' ', '\t', '\n', ' \n', '\n\n', '\r\n', '\x0c', '  \t', '\n \x0c\n', '\x0b\n']
+PREPENDS = ['\n', ' \n', '\ufeff', '\x0c\n', '\r\n', '# comment\n']
+_RE_FIELD = re.compile(r'^([A-Za-z][A-Za-z0-9-_]+):(?:\s*(.*?))?\s*$')
+_RE_CONT = re.compile(r'^\s+(?:\.|(\S.*?)\s*)$')
+
+
+def damage_index(idx, fault):
+    op, a, b = fault['op'], fault['a'], fault['b']
+    if op == 'crlf':
+        return idx.replace('\n', '\r\n')
+    if op == 'crlf+empty-line':
+        return idx.replace('\n', '\r\n') + '\r\n'
+    if op == 'truncate':
+        return idx[:1 + int(a * (len(idx) - 1))]
+    if op == 'truncate-in-blanks':
+        # cut inside (or right after) the leading blanks of a record line
+        starts = [m.end() for m in re.finditer(r'\n[ \t]+', idx)]
+        return idx[:starts[b % len(starts)] - (b // 7) % 2] if starts else idx[:-1]
+    lines = idx.splitlines(True)
+    if op == 'stray-line':
+        at = int(a * (len(lines) + 1))
+        return ''.join(lines[:at] + [STRAY_LINES[b % len(STRAY_LINES)]] + lines[at:])
+    if op == 'append':
+        return idx + APPENDS[b % len(APPENDS)]
+    return PREPENDS[b % len(PREPENDS)] + idx
+
+
+def index_malformed(text):
+    """The documented line grammar of the index (field line / continuation line / blank separator): True when some line
+    is none of these, i.e. when the index cannot be interpreted at all and the statement demands the full download."""
+    lines = re.findall(r'[^\n]*\n|[^\n]+', text)
+    i, pkg = 0, False
+    while i < len(lines):
+        line = lines[i]
+        if line.strip(' \t') == '\n':
+            if not pkg:
+                return True
+            pkg = False
+            i += 1
+            continue
+        if not _RE_FIELD.match(line):
+            return True
+        i += 1
+        while i < len(lines) and _RE_CONT.match(lines[i]):
+            i += 1
+        pkg = True
+    return False
 
 
 # ---------------------------------------------------------------------------
@@ -180,8 +241,10 @@ def publish(root, vs, alg, fault, ilayout=(' ', ' ')):
             idx = idx[:idx.index(pre + '-Patches:')]
         else:                              # Patches lists nothing
             idx = idx[:idx.index(pre + '-Patches:')] + pre + '-Patches:\n'
+    elif kind == 'damaged-index':
+        idx = damage_index(idx, fault)
     if idx is not None:
-        with open(ipath, 'w', encoding='utf-8') as f:
+        with open(ipath, 'w', encoding='utf-8', newline='') as f:
             f.write(idx)
     if kind == 'full-missing':
         os.unlink(os.path.join(root, 'Packages.gz'))
@@ -353,7 +416,13 @@ def _one(ctx, case, d, count_only=False):
         # what the statement says must happen
         is_current = start_lines is not None and start_lines == vs[-1]
         chain_from = None if (start_lines is None or is_current) else _expected_chain(vs, start_lines)
-        index_usable = kind not in ('no-index', 'bad-index')
+        malformed = None
+        if kind == 'damaged-index':
+            with open(os.path.join(root, 'Packages.diff', 'Index'), encoding='utf-8', newline='') as f:
+                malformed = index_malformed(f.read())
+            ctx.count('damaged-index:%s:%s' % (fault['op'], 'malformed' if malformed else 'grammatical'))
+            ctx.count('damaged-index:%s' % ('malformed' if malformed else 'grammatical'))
+        index_usable = kind not in ('no-index', 'bad-index') and not malformed
         uses_chain = chain_from is not None and index_usable and start_lines is not None
         needs_write = not (is_current and index_usable) or start_lines is None
         # faults
@@ -430,7 +499,7 @@ def _one(ctx, case, d, count_only=False):
                 fired = False       # later patches wipe the damage: the result legitimately matches the index
         elif kind == 'full-missing':
             fired = needs_write and not uses_chain
-        elif kind in ('no-index', 'bad-index', 'incomplete-index'):
+        elif kind in ('no-index', 'bad-index', 'incomplete-index', 'damaged-index'):
             fired = start_lines is not None
         if fired:
             ctx.count('fault-fired:' + kind)
@@ -447,7 +516,8 @@ def _one(ctx, case, d, count_only=False):
             ctx.violation('temporary-file-left-behind', '%s: %s.new exists after the call (err=%r)' % (tag, local, err), case)
         must_fail = fired and kind in ('corrupt-patch', 'trunc-patch', 'missing-patch', 'inconsistent-patch', 'write-fail', 'close-fail', 'open-fail',
                                        'rename-veto', 'full-missing')
-        safety_only = kind in ('incomplete-index', 'failpoint') and fired
+        # a damaged index that is still grammatical may or may not carry enough to be used: only safety is demanded
+        safety_only = (kind in ('incomplete-index', 'failpoint') or (kind == 'damaged-index' and not malformed)) and fired
         if err is None:
             if ret is None or ''.join(ret) != target or after != target:
                 k = 'returned-without-converging'
